@@ -35,7 +35,10 @@ SPEC = dict(
           "its fragments AND a cut inside a frame header was executed; distinct by hash of the wire bytes. "
           "server_wire/client_wire: stream + segmentation + up to 6 application sends (text/binary/ping/close, lengths "
           "0..70001) interleaved, over a real connection; same non-trivial rule, distinct by hash(wire, plan). "
-          "client_reuse: ONE WebSocketClient object through 2-3 connections; each but the last carries a short valid exchange "
+          "In client_segments the 101 response is additionally part of the fed bytes (response+stream in one read, response cut at "
+          "7 positions, response + first k frames); in half of the client_wire/client_reuse/server_wire cases the first frames "
+          "travel in the same write as the 101 response / the upgrade request and the peer then stays silent until their effects "
+          "are visible. client_reuse: ONE WebSocketClient object through 2-3 connections; each but the last carries a short valid exchange "
           "and ends by {oversized header 1009, malformed header 1002, invalid UTF-8 1007, client sendClose, client "
           "disconnect(), peer close, TCP reset idle, TCP reset inside a frame of a fragmented message}; the last carries the "
           "client_wire exchange under the unchanged oracles; every case non-trivial, distinct by hash(endings, wire, plan). "
